@@ -185,7 +185,15 @@ FILE_SHADOWS = ("update", "fix_blank_lines", "fix_trailing_whitespace", "set_tok
 
 def clone_rule(r):
     n = object.__new__(type(r))
-    n.__dict__ = copy.deepcopy({k: v for k, v in r.__dict__.items() if k not in SHADOWS})
+    d = {}
+    for k, v in r.__dict__.items():
+        if k in SHADOWS:
+            continue
+        try:
+            d[k] = copy.deepcopy(v)
+        except TypeError:
+            d[k] = v  # modules / classes held as configuration constants: shared
+    n.__dict__ = d
     return n
 
 
@@ -398,6 +406,14 @@ def d_pipe(item, monitors=(), want_toi=False, fix=True, extra_argv=(), keep_file
         ex.outcome = "exception"
         ex.exception = ("RecursionError", "?", "")
     except Exception as e:
+        import traceback as _tb
+
+        for fs in reversed(_tb.extract_tb(sys.exc_info()[2])):
+            fn = os.path.realpath(fs.filename)
+            if fn.startswith(base.VERIF + os.sep):
+                raise  # raised by (or below) the harness itself: never a verdict about the product
+            if fn.startswith(base.REPO + os.sep):
+                break
         ex.outcome = "exception"
         ex.exception = (type(e).__name__, explore.repo_frame(sys.exc_info()[2]), str(e)[:200], ex.in_fix.unique_id if ex.in_fix else ex.stage)
     finally:
